@@ -146,6 +146,14 @@ def variant(rng, A, kind):
     if kind == "empty":
         B["F"] = []
         return B
+    if kind == "cancel":
+        # equivalent: an extra component whose two paths for "a" carry opposite weights (real weights may be negative)
+        w = rng.choice([[1, 2], [1, 4], [1, 1]])
+        B["n"] = n + 3
+        B["I"].append([n, [1, 1]])
+        B["arcs"] += [[n, "a", n + 1, w], [n, "a", n + 2, w]]
+        B["F"] += [[n + 1, [1, 2]], [n + 2, [-1, 2]]]
+        return B
     raise ValueError(kind)
 
 
@@ -160,9 +168,13 @@ def generate(rng, tier, shard, nshards):
                 r[-1] = rng.choice([[1, 2], [1, 4], [1, 4]])
         if i % 7 == 6:
             A["F"] = []                      # empty language
-        featA = aops.afeat(A) + ("+emptylang" if not A["F"] else "")
+        if i % 4 == 1:                       # real weights of both signs
+            for r in A["arcs"] + A["F"]:
+                if rng.random() < 0.4:
+                    r[-1] = [-r[-1][0], r[-1][1]]
+        featA = aops.afeat(A) + ("+emptylang" if not A["F"] else "") + ("+signed" if i % 4 == 1 else "")
         yield event("min", {"A": A, "L": 3}, site="WFSA.min", feat=featA)
-        for kind in ("same", "perm", "redundant", "deadsym", "extrasym", "split", "tweak", "empty", "random"):
+        for kind in ("same", "perm", "redundant", "deadsym", "extrasym", "split", "tweak", "empty", "cancel", "random"):
             if kind == "random":
                 B = aops.rand_wfsa(rng, "Rat", nS=rng.choice([1, 2, 3]), narcs=3, labels=("a", "b"), eps_acyclic=True, acyclic=True)
             else:
@@ -174,7 +186,7 @@ def generate(rng, tier, shard, nshards):
             if kind in ("extrasym", "tweak", "deadsym"):           # the relation must not depend on the argument order
                 yield event("cex", {"A": B, "B": A}, site="counterexample", feat=kind + "/swapped")
                 yield event("eq", {"A": B, "B": A}, site="__eq__/__hash__", feat=kind + "/swapped")
-            if kind in ("split", "redundant", "deadsym", "random"):
+            if kind in ("split", "redundant", "deadsym", "cancel", "random"):
                 yield event("min", {"A": B, "L": 3}, site="WFSA.min", feat="min-of-" + kind)
         if i % 8 != shard % 8:
             continue
